@@ -310,13 +310,13 @@ def run(ctx):
     def bump(h, k):
         cov[h][k] = cov[h].get(k, 0) + 1
 
-    check_time_solve(ctx, cuqi, rng, 90 * S, bump)
-    check_steady_solve(ctx, cuqi, rng, 50 * S, bump)
-    check_grids(ctx, cuqi, rng, 40 * S)
-    check_observe_time(ctx, cuqi, rng, 110 * S, bump)
-    check_observe_steady(ctx, cuqi, rng, 50 * S, bump)
-    check_pipeline(ctx, cuqi, rng, 50 * S, bump)
-    check_gradient(ctx, cuqi, rng, 30 * S)
+    check_time_solve(ctx, cuqi, rng, 260 * S, bump)
+    check_steady_solve(ctx, cuqi, rng, 120 * S, bump)
+    check_grids(ctx, cuqi, rng, 80 * S)
+    check_observe_time(ctx, cuqi, rng, 300 * S, bump)
+    check_observe_steady(ctx, cuqi, rng, 120 * S, bump)
+    check_pipeline(ctx, cuqi, rng, 150 * S, bump)
+    check_gradient(ctx, cuqi, rng, 64 * S)
     check_testproblems(ctx, cuqi, rng, thorough)
 
 
@@ -329,7 +329,7 @@ def check_time_solve(ctx, cuqi, rng, ncases, bump):
     from cuqi.pde import TimeDependentLinearPDE
     cases, lines = [], []
     for c in range(ncases):
-        n = rng.randint(1, 5)
+        n = rng.randint(1, 5) if ctx.tier != "thorough" else rng.randint(1, 8)
         flavour = TIME_FLAVOURS[c % len(TIME_FLAVOURS)] if c < 4 * len(TIME_FLAVOURS) else rng.choice(TIME_FLAVOURS)
         if n == 1 and flavour in ("op-p",):
             n = 2
@@ -339,13 +339,15 @@ def check_time_solve(ctx, cuqi, rng, ncases, bump):
         if c < 2 * len(TIME_FLAVOURS):
             method = METHODS[(c // len(TIME_FLAVOURS)) % 2]
         gridkind = rng.choice(["uniform", "nonuniform", "nonuniform", "wild"]) if flavour != "general" or method != "backward_euler" else rng.choice(["uniform", "nonuniform"])
-        nt = rng.choice([1, 2, 2, 3, 4, 5, 6, 8])
+        nt = rng.choice([1, 2, 2, 3, 4, 5, 6, 8]) if ctx.tier != "thorough" else rng.choice([1, 2, 3, 4, 5, 6, 8, 12, 16])
         ts = gen_times(rng, nt, gridkind)
         if flavour == "op-p":
             p = np.array([dy(rng, 0.25, 3, 4) for _ in range(npar)])
         else:
             p = dyv(rng, npar)
         skind = rng.choice(SOLVER_KINDS) if rng.random() < 0.8 else "default"
+        if skind in ("t0", "raise") and rng.random() < 0.6:
+            skind = rng.choice(["plain", "t2", "t3", "kw"])
         # backward Euler on arbitrary operators: keep I - dt A comfortably invertible (else both sides may
         # legitimately differ in *whether* a float LU notices singularity)
         if method.lower() == "backward_euler":
@@ -700,8 +702,8 @@ def check_observe_time(ctx, cuqi, rng, ncases, bump):
     from cuqi.pde import TimeDependentLinearPDE
     cases, lines = [], []
     for c in range(ncases):
-        N = rng.choice([4, 5, 6, 7]) if rng.random() < 0.85 else rng.choice([2, 3])
-        nt = rng.choice([4, 5, 6, 8]) if rng.random() < 0.85 else rng.choice([1, 2, 3])
+        N = rng.choice([4, 5, 6, 7]) if rng.random() < 0.93 else rng.choice([2, 3])
+        nt = rng.choice([4, 5, 6, 8]) if rng.random() < 0.92 else rng.choice([1, 2, 3])
         hs = [rng.choice([0.25, 0.5, 1.0]) for _ in range(N - 1)]
         gs = np.concatenate([[dy(rng, -1, 1, 2)], np.zeros(N - 1)])
         for i in range(1, N):
@@ -709,7 +711,7 @@ def check_observe_time(ctx, cuqi, rng, ncases, bump):
         ts = gen_times(rng, nt, rng.choice(["uniform", "nonuniform"]))
         go, gclass = gen_obs_grid(rng, gs) if N >= 3 else (None, "none")
         tobs, ttok, tclass = gen_tobs(rng, ts)
-        if c % 9 == 0:           # make sure the direct branch with an equal copy and the final time is frequent
+        if c % 6 == 0:           # make sure the direct branch with an equal copy and the final time is frequent
             go, gclass = (gs.copy(), "equal-copy") if c % 2 else (None, "none")
         grid_sol_none = rng.random() < 0.05
         if c < 3:                # always present: equal grids and time_obs = the final time repeated / no time at all
